@@ -296,6 +296,7 @@ func runC10(c *Ctx) {
 	// the order-dependent cache witness of round 0, as a fixed regression case
 	runC10CacheWitness(c)
 	runC10Lookalikes(c)
+	runC10Rekeyed(c)
 }
 
 type entity struct {
@@ -454,8 +455,8 @@ func runTopology(c *Ctx, ti int, r *mon.RNG) {
 		for j := 0; j < nCerts; j++ {
 			par := ents[r.Intn(len(ents))]
 			g := mkCA("inter", name, key)
-			if j > 0 && bad(3) {
-				g.keyID = newKey() // same-name impostor with another key
+			if j > 0 && (r.Intn(3) == 0 || bad(3)) {
+				g.keyID = newKey() // same name, another key: a re-keyed CA (legitimate) — both certificates may sit in one pool
 			}
 			g.issuerName = par.subject
 			g.signerKey = par.keyID
@@ -545,6 +546,7 @@ func runTopology(c *Ctx, ti int, r *mon.RNG) {
 
 	// queries
 	nQ := c.Q(40, 60)
+	var sharedRoots, sharedInters *gx509.CertPool
 	for q := 0; q < nQ; q++ {
 		leaf := leaves[r.Intn(len(leaves))]
 		// pools in a random insertion order
@@ -558,13 +560,22 @@ func runTopology(c *Ctx, ti int, r *mon.RNG) {
 			j := rr.Intn(i + 1)
 			idx[i], idx[j] = idx[j], idx[i]
 		}
-		roots, inters := gx509.NewCertPool(), gx509.NewCertPool()
-		for _, i := range idx {
-			if all[i].inRoots {
-				roots.AddCert(all[i].cert)
+		// every other topology keeps one pair of pools for all its queries (verification must not change a pool: what an
+		// earlier Verify did on the same pools must not show in a later answer); the others build fresh pools per query
+		roots, inters := sharedRoots, sharedInters
+		if roots == nil || ti%2 == 1 {
+			roots, inters = gx509.NewCertPool(), gx509.NewCertPool()
+			for _, i := range idx {
+				if all[i].inRoots {
+					roots.AddCert(all[i].cert)
+				}
+				if all[i].inInters {
+					inters.AddCert(all[i].cert)
+				}
 			}
-			if all[i].inInters {
-				inters.AddCert(all[i].cert)
+			if ti%2 == 0 {
+				sharedRoots, sharedInters = roots, inters
+				rep.Count("topologies_with_pools_shared_by_all_queries", 1)
 			}
 		}
 		// time
@@ -929,6 +940,114 @@ func runC10Lookalikes(c *Ctx) {
 				}
 			}
 			rep.Eval(fmt.Sprintf("lookalike/genuine-leaf/order=%d", order))
+		}
+	}
+}
+
+// runC10Rekeyed: a CA that was re-keyed (same name, two certificates with different keys, with and without key identifiers)
+// sits with both certificates in one pool — as two roots, or as two intermediates under one root — and leaves issued
+// under either key are verified one after another *on the same pools*, in every order. Each answer must be what the
+// ground truth says (every leaf chains to the certificate whose key signed it), whatever was verified before.
+func runC10Rekeyed(c *Ctx) {
+	rep := c.Rep
+	r := c.Rng("rekeyed")
+	must := func(t, p *gx509.Certificate, pub *sm2.PublicKey, k *sm2.PrivateKey) *gx509.Certificate {
+		der, err := gx509.CreateCertificate(t, p, pub, k)
+		if err != nil {
+			return nil
+		}
+		cc, _ := gx509.ParseCertificate(der)
+		return cc
+	}
+	for trial := 0; trial < c.Q(8, 200); trial++ {
+		asRoots := trial%2 == 0
+		withSKI := trial%4 >= 2
+		kTop, kOld, kNew := newSM2Key(r), newSM2Key(r), newSM2Key(r)
+		ca := func(cn string, sn int64, ski []byte) *gx509.Certificate {
+			return &gx509.Certificate{SerialNumber: big.NewInt(sn), Subject: pkix.Name{CommonName: cn, Organization: []string{"RK"}}, NotBefore: fixedNow.Add(-time.Hour), NotAfter: fixedNow.Add(time.Hour),
+				BasicConstraintsValid: true, IsCA: true, MaxPathLen: -1, SignatureAlgorithm: gx509.SM2WithSM3, KeyUsage: gx509.KeyUsageCertSign, SubjectKeyId: ski}
+		}
+		var skiOld, skiNew, skiTop []byte
+		if withSKI {
+			skiOld, skiNew, skiTop = []byte{1, 1, 1, byte(trial)}, []byte{2, 2, 2, byte(trial)}, []byte{3, 3, 3, byte(trial)}
+		}
+		tTop := ca("RK-Top", 1, skiTop)
+		top := must(tTop, tTop, &kTop.PublicKey, kTop)
+		tOld, tNew := ca("RK-CA", 2, skiOld), ca("RK-CA", 3, skiNew)
+		var old, nw *gx509.Certificate
+		if asRoots {
+			old, nw = must(tOld, tOld, &kOld.PublicKey, kOld), must(tNew, tNew, &kNew.PublicKey, kNew)
+		} else {
+			old, nw = must(tOld, tTop, &kOld.PublicKey, kTop), must(tNew, tTop, &kNew.PublicKey, kTop)
+		}
+		leaf := func(cn string, sn int64, parent *gx509.Certificate, pk *sm2.PrivateKey) *gx509.Certificate {
+			k := newSM2Key(r)
+			t := &gx509.Certificate{SerialNumber: big.NewInt(sn), Subject: pkix.Name{CommonName: cn}, NotBefore: fixedNow.Add(-time.Hour), NotAfter: fixedNow.Add(time.Hour),
+				SignatureAlgorithm: gx509.SM2WithSM3, DNSNames: []string{"rk.example"}, KeyUsage: gx509.KeyUsageDigitalSignature}
+			return must(t, parent, &k.PublicKey, pk)
+		}
+		if top == nil || old == nil || nw == nil {
+			rep.Note("rekeyed: could not build the CAs")
+			return
+		}
+		lOld1, lOld2, lNew1, lNew2 := leaf("under-old-1", 10, tOld, kOld), leaf("under-old-2", 11, tOld, kOld), leaf("under-new-1", 12, tNew, kNew), leaf("under-new-2", 13, tNew, kNew)
+		if lOld1 == nil || lOld2 == nil || lNew1 == nil || lNew2 == nil {
+			continue
+		}
+		type q struct {
+			name   string
+			cert   *gx509.Certificate
+			issuer *gx509.Certificate
+		}
+		qs := []q{{"under-old-1", lOld1, old}, {"under-new-1", lNew1, nw}, {"under-old-2", lOld2, old}, {"under-new-2", lNew2, nw}, {"old-ca-itself", old, nil}, {"new-ca-itself", nw, nil}}
+		for _, addOldFirst := range []bool{true, false} {
+			roots, inters := gx509.NewCertPool(), gx509.NewCertPool()
+			pool := inters
+			if asRoots {
+				pool = roots
+			} else {
+				roots.AddCert(top)
+			}
+			if addOldFirst {
+				pool.AddCert(old)
+				pool.AddCert(nw)
+			} else {
+				pool.AddCert(nw)
+				pool.AddCert(old)
+			}
+			// a seeded order of 12 verifications on the same pools
+			var trace []string
+			for step := 0; step < 12; step++ {
+				x := qs[r.Intn(len(qs))]
+				trace = append(trace, x.name)
+				var chains [][]*gx509.Certificate
+				var err error
+				w := map[string]interface{}{"as_roots": asRoots, "with_key_identifiers": withSKI, "old_added_first": addOldFirst, "verifications_so_far_on_these_pools": append([]string{}, trace...)}
+				if pi := mon.Guard(func() {
+					chains, err = x.cert.Verify(gx509.VerifyOptions{DNSName: map[bool]string{true: "rk.example", false: ""}[x.issuer != nil], Intermediates: inters, Roots: roots, CurrentTime: fixedNow, KeyUsages: []gx509.ExtKeyUsage{gx509.ExtKeyUsageAny}})
+				}); pi != nil {
+					rep.Violation("C10/Verify/panic/"+pi.Func, pi.Value, w)
+					break
+				}
+				if err != nil || len(chains) == 0 {
+					rep.Violation("C10/Verify/false-reject/re-keyed-ca-in-one-pool(answer depends on earlier verifications)", fmt.Sprintf("%s after %v: %v", x.name, trace[:len(trace)-1], err), w)
+					break
+				}
+				bad := false
+				for _, ch := range chains {
+					if x.issuer != nil && (len(ch) < 2 || !bytes.Equal(ch[1].Raw, x.issuer.Raw)) {
+						bad = true
+					}
+					if x.issuer == nil && !bytes.Equal(ch[0].Raw, x.cert.Raw) {
+						bad = true
+					}
+				}
+				if bad {
+					rep.Violation("C10/Verify/returned-chain-invalid/re-keyed-ca-wrong-issuer-in-chain", fmt.Sprintf("%s after %v", x.name, trace[:len(trace)-1]), w)
+					break
+				}
+			}
+			rep.Eval(fmt.Sprintf("rekeyed/roots=%v/ski=%v/oldFirst=%v", asRoots, withSKI, addOldFirst))
 		}
 	}
 }
